@@ -6,18 +6,22 @@ import (
 	"fmt"
 	"os"
 
+	"verifharness/internal/c02"
 	"verifharness/internal/c03"
 	"verifharness/internal/c05"
 	"verifharness/internal/c06"
+	"verifharness/internal/c13"
 	"verifharness/internal/common"
 )
 
 type sub func(tier string, seed int64, outDir string) *common.Meta
 
 var subs = map[string]sub{
+	"c02": c02.Run,
 	"c03": c03.Run,
 	"c05": c05.Run,
 	"c06": c06.Run,
+	"c13": c13.Run,
 }
 
 var gens = map[string]func(outDir string) error{
